@@ -388,6 +388,76 @@ Proof.
   - inversion H; subst. now apply IH.
 Qed.
 
+Lemma dedup_first_NoDup l : NoDup (dedup_first l).
+Proof. unfold dedup_first. apply NoDup_rev, dedup_NoDup. Qed.
+Lemma dedup_first_In i l : In i (dedup_first l) <-> In i l.
+Proof. unfold dedup_first. rewrite <- in_rev, dedup_In, <- in_rev. tauto. Qed.
+
+(* the number of distinct rows does not depend on the order of the list *)
+Lemma dedup_length_incl l l' : NoDup l -> incl l l' -> length l <= length (dedup l').
+Proof. intros Hn Hi. apply NoDup_incl_length; [exact Hn|]. intros i H. apply dedup_In. now apply Hi. Qed.
+Lemma dedup_length_same l l' : (forall i, In i l <-> In i l') -> length (dedup l) = length (dedup l').
+Proof.
+  intros H. apply Nat.le_antisymm; (apply dedup_length_incl; [apply dedup_NoDup|]); intros i Hi;
+    apply (proj1 (dedup_In _ _)) in Hi; specialize (H i); tauto.
+Qed.
+Lemma dedup_first_length l : length (dedup_first l) = length (dedup l).
+Proof. unfold dedup_first. rewrite rev_length. apply dedup_length_same. intros i. symmetry. apply in_rev. Qed.
+
+Lemma redraw_NoDup fuel nz s cur ds : NoDup cur -> NoDup (fst (redraw fuel nz s cur ds)).
+Proof.
+  revert cur ds. induction fuel as [|f IH]; intros cur ds Hc; cbn [redraw]; auto.
+  destruct (length cur <? nz); auto. destruct ds as [|d ds]; auto. cbn [fst]. apply IH, unique_rows_NoDup.
+Qed.
+
+(* the loop's final candidate is the start value or the candidate of one of the consumed draws *)
+Lemma redraw_origin fuel nz s cur ds :
+  fst (redraw fuel nz s cur ds) = cur \/
+  exists d, In d (firstn (snd (redraw fuel nz s cur ds)) ds) /\ fst (redraw fuel nz s cur ds) = cand s d.
+Proof.
+  revert cur ds. induction fuel as [|f IH]; intros cur ds; cbn [redraw]; auto.
+  destruct (length cur <? nz); auto. destruct ds as [|d ds]; auto.
+  cbn [fst snd firstn]. destruct (IH (cand s d) ds) as [E|(d' & Hin & E)].
+  - right. exists d. split; [now left|exact E].
+  - right. exists d'. split; [now right|exact E].
+Qed.
+
+Lemma sprand_subs_NoDup nz s draws : NoDup (sprand_subs nz s draws).
+Proof.
+  unfold sprand_subs. cbv zeta. destruct (_ <? _); [apply unique_rows_NoDup|].
+  unfold sprand_loop_subs. apply NoDup_firstn, redraw_NoDup. constructor.
+Qed.
+
+Lemma sprand_subs_length_le nz s draws : length (sprand_subs nz s draws) <= nz.
+Proof.
+  unfold sprand_subs. cbv zeta. destruct (_ <? _).
+  - rewrite unique_rows_length. etransitivity; [apply dedup_length_le|]. rewrite firstn_length. lia.
+  - unfold sprand_loop_subs. rewrite firstn_length. lia.
+Qed.
+
+Lemma pool_rows_inb s draws : Forall (fun d => 0 < d) s -> Forall (valid_draw s) draws ->
+  forall i, In i (pool_rows s draws) -> inb s i = true.
+Proof.
+  intros Hs Hd i Hi. unfold pool_rows in Hi. apply in_flat_map in Hi as (d & Hd1 & Hd2).
+  apply in_map_iff in Hd2 as (row & <- & Hrow). rewrite Forall_forall in Hd. specialize (Hd d Hd1).
+  unfold valid_draw in Hd. rewrite Forall_forall in Hd. apply inb_scale_row; auto.
+Qed.
+
+Lemma Forall_firstn {A} (P : A -> Prop) n l : Forall P l -> Forall P (firstn n l).
+Proof. rewrite !Forall_forall. intros H x Hx. apply H. eapply In_firstn, Hx. Qed.
+
+(* distinct and inside the shape, whatever the (valid) draws - the loop's candidate and the fallback alike *)
+Lemma sprand_subs_good nz s draws : Forall (fun d => 0 < d) s -> Forall (valid_draw s) draws ->
+  good s (sprand_subs nz s draws).
+Proof.
+  intros Hs Hd. split; [apply sprand_subs_NoDup|].
+  unfold sprand_subs. cbv zeta. destruct (_ <? _).
+  - rewrite Forall_forall. intros i Hi. apply (proj1 (unique_rows_In _ _)) in Hi. apply In_firstn in Hi.
+    apply (proj1 (dedup_first_In _ _)) in Hi. revert Hi. apply pool_rows_inb; [exact Hs|]. now apply Forall_firstn.
+  - destruct (redraw_good 10 nz s [] draws Hs Hd) as [_ Hb]; [split; constructor|].
+    unfold sprand_loop_subs. rewrite Forall_forall in *. intros i Hi. apply In_firstn in Hi. auto.
+Qed.
+
 Section SpRand.
 Context {V : Type} (isz : V -> bool).
 
@@ -400,12 +470,10 @@ Theorem sprand_wf (nz : nat) (s : shape) (draws : list (list (list Z))) (vals : 
   svals (sprand nz s draws vals) = vals /\ nnz (sprand nz s draws vals) <= nz.
 Proof.
   intros Hs Hd HL Hv.
-  destruct (redraw_good 10 nz s [] draws Hs Hd) as [Hn Hb]; [split; constructor|].
+  destruct (sprand_subs_good nz s draws Hs Hd) as [Hn Hb].
   split; [|split; [reflexivity|split; [reflexivity|]]].
-  - unfold wf_sp, sprand, sprand_subs. cbn [ssubs svals sshape]. repeat split; auto.
-    + now apply NoDup_firstn.
-    + rewrite Forall_forall in *. intros i Hi. apply In_firstn in Hi. auto.
-  - unfold nnz, sprand, sprand_subs. cbn [ssubs]. rewrite firstn_length. lia.
+  - unfold wf_sp, sprand. cbn [ssubs svals sshape]. repeat split; auto.
+  - unfold nnz, sprand. cbn [ssubs]. apply sprand_subs_length_le.
 Qed.
 End SpRand.
 
@@ -443,18 +511,36 @@ Proof.
     + cbn [fst]. split; auto. intros _. lia.
 Qed.
 
-(* the number of nonzeros: min(request, distinct rows of the final draw); it equals the request exactly when the request
-   is zero or one of the (at most ten) draws has pairwise distinct scaled rows *)
+(* the number of nonzeros (after the repair of finding A-46): min(request, number of DISTINCT rows over ALL consumed draws);
+   so it equals the request exactly when the consumed draws together hold that many distinct rows - in particular
+   whenever the request is zero or one single draw of the (at most ten) has pairwise distinct scaled rows *)
 Theorem sprand_count (nz : nat) (s : shape) (draws : list (list (list Z))) :
-  Forall (fun d => length d = nz) draws -> 10 <= length draws ->
-  length (sprand_subs nz s draws) = length (fst (redraw 10 nz s [] draws)) /\
-  length (sprand_subs nz s draws) = Nat.min nz (length (fst (redraw 10 nz s [] draws))) /\
-  (length (sprand_subs nz s draws) = nz <-> nz = 0 \/ Exists (distinct_rows s) (firstn 10 draws)).
+  let pool := pool_rows s (firstn (sprand_consumed nz s draws) draws) in
+  length (sprand_subs nz s draws) = Nat.min nz (length (dedup pool)) /\
+  (length (sprand_subs nz s draws) = nz <-> nz <= length (dedup pool)) /\
+  (Forall (fun d => length d = nz) draws -> 10 <= length draws ->
+   nz = 0 \/ Exists (distinct_rows s) (firstn 10 draws) -> length (sprand_subs nz s draws) = nz).
 Proof.
-  intros Hd HL. pose proof (redraw_length 10 nz s [] draws Hd (Nat.le_0_l nz)) as Hle.
-  unfold sprand_subs. rewrite firstn_length. split; [lia|]. split; [reflexivity|].
-  rewrite Nat.min_r by exact Hle. rewrite (redraw_full 10 nz s [] draws Hd (Nat.le_0_l nz) HL). cbn [length].
-  split; intros [H|H]; auto.
+  intros pool.
+  assert (H1 : length (sprand_subs nz s draws) = Nat.min nz (length (dedup pool))).
+  { unfold pool, sprand_consumed, sprand_subs, sprand_loop_subs. cbv zeta.
+    pose proof (redraw_origin 10 nz s [] draws) as Ho.
+    set (r := redraw 10 nz s [] draws) in *.
+    destruct (Nat.ltb_spec (length (fst r)) nz) as [Hlt|Hge].
+    - rewrite unique_rows_length, dedup_NoDup_id by apply NoDup_firstn, dedup_first_NoDup.
+      rewrite firstn_length, dedup_first_length. reflexivity.
+    - rewrite firstn_length.
+      assert (nz <= length (dedup (pool_rows s (firstn (snd r) draws)))); [|lia].
+      destruct Ho as [E|(d & Hin & E)].
+      + rewrite E in Hge. cbn in Hge. lia.
+      + etransitivity; [exact Hge|]. rewrite E. apply dedup_length_incl; [apply unique_rows_NoDup|].
+        intros i Hi. apply (proj1 (unique_rows_In _ _)) in Hi. unfold pool_rows. apply in_flat_map. exists d. split; auto. }
+  split; [exact H1|]. split; [rewrite H1; lia|].
+  intros Hd HL Hex.
+  pose proof (redraw_length 10 nz s [] draws Hd (Nat.le_0_l nz)) as Hle.
+  assert (Hfull : length (fst (redraw 10 nz s [] draws)) = nz).
+  { apply (redraw_full 10 nz s [] draws Hd (Nat.le_0_l nz) HL). cbn [length]. destruct Hex as [->|H]; auto. }
+  unfold sprand_subs, sprand_loop_subs. cbv zeta. rewrite Hfull, Nat.ltb_irrefl, firstn_length. lia.
 Qed.
 
 (* the first draw already distinct: one draw is consumed and the stored subscripts are its sorted rows *)
@@ -462,12 +548,12 @@ Theorem sprand_first_draw (nz : nat) (s : shape) (d : list (list Z)) (ds : list 
   0 < nz -> length d = nz -> distinct_rows s d ->
   sprand_subs nz s (d :: ds) = cand s d /\ sprand_consumed nz s (d :: ds) = 1.
 Proof.
-  intros Hnz HL Hd. unfold sprand_subs, sprand_consumed.
+  intros Hnz HL Hd. unfold sprand_subs, sprand_loop_subs, sprand_consumed. cbv zeta.
   assert (E : length (cand s d) = nz) by (rewrite <- HL; now apply cand_length).
   assert (R : redraw 10 nz s [] (d :: ds) = (cand s d, 1)).
   { cbn [redraw length]. destruct (Nat.ltb_spec 0 nz); [|lia]. cbn [redraw].
     rewrite E, Nat.ltb_irrefl. reflexivity. }
-  rewrite R. cbn [fst snd]. split; auto. rewrite <- E. apply firstn_all.
+  rewrite R. cbn [fst snd]. rewrite E, Nat.ltb_irrefl. split; auto. rewrite <- E. apply firstn_all.
 Qed.
 
 (* ================================================================ teneye, order 2 *)
@@ -476,14 +562,16 @@ Proof.
   unfold teneye_count. cbn. rewrite (Nat.eqb_sym b a). destruct (Nat.eqb a b); reflexivity.
 Qed.
 
-(* ================================================================ what the code does NOT guarantee (known findings) *)
+(* ================================================================ what the code does NOT guarantee *)
 (* "the requested number of nonzeros" as the property states it, for every admissible stream of draws *)
 Definition requested_count_stmt : Prop :=
   forall (nz : nat) (s : shape) (draws : list (list (list Z))),
   Forall (fun d => 0 < d) s -> Forall (valid_draw s) draws -> Forall (fun d => length d = nz) draws ->
   10 <= length draws -> nz < size s -> length (sprand_subs nz s draws) = nz.
 
-(* refuted by a stream whose ten draws all hit the same cell twice (finding A-46) *)
+(* still refuted for the REPAIRED code (union fallback, /repo bc5da93) by a stream whose ten draws all hit one and the same
+   cell: no bounded number of draws with replacement can guarantee the request; what IS guaranteed is sprand_count
+   (nnz = min(request, distinct rows over all consumed draws)) *)
 Theorem requested_count_refuted : ~ requested_count_stmt.
 Proof.
   intros H. specialize (H 2 [2; 3] (repeat [[0; 0]; [0; 0]]%Z 10)).
@@ -730,7 +818,10 @@ Qed.
 
 (* ... and so do those of the random sparse generator, whatever the draws *)
 Theorem sprand_sorted nz s draws : StronglySorted idx_lt (sprand_subs nz s draws).
-Proof. unfold sprand_subs. apply StronglySorted_firstn, redraw_sorted. constructor. Qed.
+Proof.
+  unfold sprand_subs. cbv zeta. destruct (_ <? _); [apply unique_rows_sorted|].
+  unfold sprand_loop_subs. apply StronglySorted_firstn, redraw_sorted. constructor.
+Qed.
 
 (* ================================================================ value ranges: the function's output verbatim *)
 Section Values.
@@ -761,12 +852,7 @@ Theorem sprand_values (nz : nat) (s : shape) (draws : list (list (list Z))) (val
   (forall P : V -> Prop, P v0 -> Forall P vals -> forall i, P (den_sp v0 (sprand nz s draws vals) i)).
 Proof.
   intros HL. split; [reflexivity|].
-  assert (Hn : NoDup (sprand_subs nz s draws)).
-  { unfold sprand_subs. apply NoDup_firstn.
-    assert (G : forall fuel cur ds, NoDup cur -> NoDup (fst (redraw fuel nz s cur ds))).
-    { induction fuel as [|f IH]; intros cur ds Hc; cbn [redraw]; auto.
-      destruct (length cur <? nz); auto. destruct ds as [|d ds]; auto. cbn [fst]. apply IH, unique_rows_NoDup. }
-    apply G. constructor. }
+  assert (Hn : NoDup (sprand_subs nz s draws)) by apply sprand_subs_NoDup.
   assert (Hk' : forall k, k < length vals ->
      den_sp v0 (sprand nz s draws vals) (nth k (sprand_subs nz s draws) []) = nth k vals v0).
   { intros k Hk. unfold den_sp. apply last_match_in.
